@@ -147,6 +147,32 @@ def lattice(j, cases):
                     if ok:
                         ok = float(np.max(np.abs(np.asarray(fn(u), dtype=float) - u))) <= TOL
                     check(j, ok, site, feat, "not-unit-or-direction-changed-or-not-idempotent", {"q": q.tolist(), "got": u.tolist()}, cid)
+                # nearly unit quaternions (norm drift d on a ladder), scalar part exactly +-1 with a non-zero vector part, the
+                # (s, v) constructor form, and a multi-valued Quaternion whose FIRST value is already of unit norm
+                if s == 1.0:
+                    q0 = np.r_[2.0, v] / float(np.linalg.norm(np.r_[2.0, v]))
+                    cands = [("drift=%g" % d, q0 * (1.0 + d)) for d in (1e-12, 1e-9, 1e-6, 1e-5, 1e-4, 3e-4, 1e-3, 1e-2, -1e-4, -1e-6)]
+                    cands += [("s=+1", np.r_[1.0, v * 0.01]), ("s=-1", np.r_[-1.0, v * 0.5]), ("s=+1;big-v", np.r_[1.0, v])]
+                    sites2 = {"base.unit": lambda x: b.unit(x), "Quaternion.unit": lambda x: Quaternion(x).unit().vec,
+                              "UnitQuaternion(v)": lambda x: UnitQuaternion(x).vec,
+                              "UnitQuaternion(s,v)": lambda x: UnitQuaternion(float(x[0]), x[1:]).vec,
+                              "Quaternion([unit,q]).unit.data[1]": lambda x: np.asarray(Quaternion([Quaternion([1, 0, 0, 0]), Quaternion(x)]).unit().data[1]),
+                              "Quaternion([q,unit]).unit.data[0]": lambda x: np.asarray(Quaternion([Quaternion(x), Quaternion([0, 1, 0, 0])]).unit().data[0])}
+                    for tag, qq in cands:
+                        qqn = float(np.linalg.norm(qq))
+                        for site, fn in sites2.items():
+                            feat2 = "quat;" + tag.split("=")[0] + ("" if tag.startswith("s=") else ";" + ("small" if abs(float(tag.split("=")[1])) < 1e-7 else "large")) if tag.startswith("drift") else "quat;" + tag
+                            cid = (site, feat2)
+                            u = guard(j, site, feat2, {"q": qq.tolist()}, cid, lambda: np.asarray(fn(qq), dtype=float))
+                            if u is None:
+                                continue
+                            try:
+                                ok = u.shape == (4,) and abs(float(np.linalg.norm(u)) - 1) <= TOL and float(np.max(np.abs(u - qq / qqn))) <= TOL
+                                if ok:
+                                    ok = float(np.max(np.abs(np.asarray(fn(u), dtype=float) - u))) <= TOL
+                            except Exception:  # noqa: BLE001
+                                ok = False
+                            check(j, ok, site, feat2, "not-unit-or-direction-changed-or-not-idempotent", {"q": qq.tolist(), "got": u.tolist()}, cid)
         elif k == "twist":
             S = np.array(c["s"], dtype=float)
             nrm = math.sqrt(a["n2"])
